@@ -131,7 +131,7 @@ func scenario08(v variant08) *netctl.Scenario {
 				}
 				n[key]++
 			}
-			CheckCommits(polls, commits, once)
+			CheckCommits(polls, commits, true, once)
 			final, err := g.FetchCommitted()
 			if err != nil {
 				x.Violate("harness:offset-fetch", "%v", err)
@@ -173,7 +173,7 @@ func bucket(n int) string {
 }
 
 // PlansC08 returns the exploration plans of check C08 (also reused by C41).
-func PlansC08() []nrun.Plan { return plansC08 }
+func PlansC08() []nrun.Plan { return append(append([]nrun.Plan{}, plansC08...), GenPlanC08()) }
 
 var plansC08 = []nrun.Plan{
 	{Scenario: scenario08(variant08{name: "GR-eager", proto: Eager}), QuickBudget: 1, ThoroughBudget: 2, Weight: 6},
@@ -187,8 +187,8 @@ var plansC08 = []nrun.Plan{
 // CheckC08 is the nrun description of check C08.
 func CheckC08() *nrun.Check {
 	return &nrun.Check{
-		ID: "C08", TestName: "TestC08", Plans: plansC08,
-		QuickTime: 85 * time.Second, ThorTime: 18 * time.Minute,
+		ID: "C08", TestName: "TestC08", Plans: PlansC08(),
+		QuickTime: 115 * time.Second, ThorTime: 18 * time.Minute,
 		Rule: strings.Join([]string{
 			"engine N, scenario family G with records: topic t (3 partitions x 6 pre-loaded records), members A and B of group g with default autocommit (2.3 s) and default revoke, PollRecords(ctx,2) in steps, B closes and a new client B2 joins (restart); one scenario per protocol (eager/range, cooperative-sticky, KIP-848), thorough adds a third member",
 			"explored: every order of request/response frame deliveries across the members' connections (OffsetCommit, Heartbeat, JoinGroup/SyncGroup, Fetch, ...), application calls and timer ticks within k deviations of the default order (no faults)",
